@@ -32,6 +32,45 @@ func fnTerm(key, elem *Sort, fn func(idx *Term) *Term) *Term {
 	return &Term{S: "<abstract-map>", Sort: &Sort{Name: "<abstract-map>", Kind: KFn, Key: key, Elem: elem}, Fn: fn}
 }
 
+// ghostMapT is the "Go type" of a ghost map whose key/value types are known: it lets field
+// selection work on the elements of ghost maps such as node: map[NodeID]Node.
+type ghostMapT struct {
+	key, val types.Type
+}
+
+func (g *ghostMapT) Underlying() types.Type { return g }
+func (g *ghostMapT) String() string         { return "ghostmap" }
+
+// ghostTypeOf builds the type descriptor of a ghost declaration type ("map[K]V", "set[K]", or a plain type).
+func (env *Env) ghostTypeOf(t string) types.Type {
+	t = strings.TrimSpace(t)
+	if strings.HasPrefix(t, "map[") {
+		kt, _ := env.tryResolve(ghostKeyType(t))
+		vt := env.ghostTypeOf(ghostValType(t))
+		return &ghostMapT{kt, vt}
+	}
+	if strings.HasPrefix(t, "set[") {
+		kt, _ := env.tryResolve(ghostKeyType(t))
+		return &ghostMapT{kt, types.Typ[types.Bool]}
+	}
+	gt, _ := env.tryResolve(t)
+	return gt
+}
+
+func (env *Env) tryResolve(t string) (ty types.Type, ok bool) {
+	defer func() {
+		if r := recover(); r != nil {
+			if _, isSpec := r.(specErr); isSpec {
+				ty, ok = nil, false
+				return
+			}
+			panic(r)
+		}
+	}()
+	ty, _ = env.resolveType(t)
+	return ty, true
+}
+
 type specErr struct{ msg string }
 
 func (e specErr) Error() string { return e.msg }
@@ -51,6 +90,7 @@ type Env struct {
 	loop  *loopInfo
 	nq    *int
 	this  *SV
+	inOld bool // evaluating under old(...): parameters denote their entry values
 }
 
 func (env *Env) with(name string, v SV) *Env {
@@ -306,6 +346,16 @@ func (env *Env) wantBool(v SV, what string) {
 
 func (env *Env) evalIdent(name string) SV {
 	vc := env.vc
+	// inside a loop invariant a variable that the loop reassigns (even a parameter) is its header phi
+	if env.frame != nil && env.loop != nil && !env.inOld {
+		for _, ins := range env.loop.header.Instrs {
+			if phi, ok := ins.(*ssa.Phi); ok && phi.Comment == name {
+				if v, ok := env.frame.regs[phi]; ok {
+					return SV{vc.term(env.st, v, "spec"), phi.Type()}
+				}
+			}
+		}
+	}
 	if v, ok := env.vars[name]; ok {
 		return v
 	}
@@ -318,7 +368,7 @@ func (env *Env) evalIdent(name string) SV {
 		return *env.this
 	}
 	if g, ok := vc.eng.db.Ghosts[name]; ok && !g.Field {
-		gt, _ := env.inPkg(g.Pkg).resolveType(g.Type)
+		gt := env.inPkg(g.Pkg).ghostTypeOf(g.Type)
 		return SV{vc.ghostVar(env.st, g), gt}
 	}
 	if obj := env.lookupQualified(name); obj != nil {
@@ -457,7 +507,9 @@ func (env *Env) equal(l, r SV) *Term {
 		}
 		*env.nq++
 		q := T(l.keySort(), fmt.Sprintf("qx%d", *env.nq))
-		return T(sortBool, fmt.Sprintf("(forall ((%s %s)) (= %s %s))", q.S, l.keySort().Name, l.at(q).S, r.at(q).S))
+		la, ra := l.at(q), r.at(q)
+		inner := env.equal(SV{V: la}, SV{V: ra})
+		return T(sortBool, fmt.Sprintf("(forall ((%s %s)) %s)", q.S, l.keySort().Name, inner.S))
 	}
 	if l.V.Sort != r.V.Sort && l.V.Sort.Name != r.V.Sort.Name {
 		specFail("comparison of different sorts %s and %s", l.V.Sort.Name, r.V.Sort.Name)
@@ -528,7 +580,7 @@ func (env *Env) evalSel(x *ESel) SV {
 		ref := env.refOf(base)
 		_, gs := env.inPkg(g.Pkg).resolveType(g.Type)
 		h := vc.ghostFieldHeap(env.st, g, gs)
-		return SV{Select(h, ref, gs), nil}
+		return SV{Select(h, ref, gs), env.inPkg(g.Pkg).ghostTypeOf(g.Type)}
 	}
 	specFail("no field or ghost field %q on %s", x.Name, typeStr(base.T))
 	return SV{}
@@ -569,23 +621,60 @@ func (env *Env) abstractField(base SV, g *GhostDecl) (SV, bool) {
 		specFail("abstraction of %s is indexed but the ghost field is not a map", g.Name)
 	}
 	captured := inner
-	return SV{V: fnTerm(gs.Key, gs.Elem, func(idx *Term) *Term {
+	var kt, kt2 types.Type
+	if kts := ghostKeyType(g.Type); kts != "" {
+		kt, _ = captured.inPkg(g.Pkg).resolveType(kts)
+		if vts := ghostValType(g.Type); vts != "" {
+			if k2 := ghostKeyType(vts); k2 != "" {
+				kt2, _ = captured.inPkg(g.Pkg).resolveType(k2)
+			}
+		}
+	}
+	evalBody := func(i1, i2 *Term) *Term {
 		e2 := captured
-		e2.vars = make(map[string]SV, len(captured.vars)+1)
+		e2.vars = make(map[string]SV, len(captured.vars)+2)
 		for k, v := range captured.vars {
 			e2.vars[k] = v
 		}
-		var kt types.Type
-		if kts := ghostKeyType(g.Type); kts != "" {
-			kt, _ = captured.inPkg(g.Pkg).resolveType(kts)
+		e2.vars[def.Param] = SV{V: i1, T: kt}
+		if i2 != nil {
+			e2.vars[def.Param2] = SV{V: i2, T: kt2}
 		}
-		e2.vars[def.Param] = SV{V: idx, T: kt}
 		r := e2.eval(def.Body)
 		if r.V == nil {
 			specFail("abstraction of %s does not yield a term", g.Name)
 		}
 		return r.V
-	})}, true
+	}
+	if def.Param2 != "" {
+		if gs.Elem.Kind != KArray {
+			specFail("abstraction of %s has two indices but the ghost field is not a nested map", g.Name)
+		}
+		return SV{V: fnTerm(gs.Key, gs.Elem, func(i1 *Term) *Term {
+			return fnTerm(gs.Elem.Key, gs.Elem.Elem, func(i2 *Term) *Term { return evalBody(i1, i2) })
+		}), T: env.inPkg(g.Pkg).ghostTypeOf(g.Type)}, true
+	}
+	return SV{V: fnTerm(gs.Key, gs.Elem, func(idx *Term) *Term { return evalBody(idx, nil) }), T: env.inPkg(g.Pkg).ghostTypeOf(g.Type)}, true
+}
+
+// ghostValType extracts V from "map[K]V".
+func ghostValType(t string) string {
+	t = strings.TrimSpace(t)
+	if !strings.HasPrefix(t, "map[") {
+		return ""
+	}
+	depth := 0
+	for i := 3; i < len(t); i++ {
+		if t[i] == '[' {
+			depth++
+		} else if t[i] == ']' {
+			depth--
+			if depth == 0 {
+				return t[i+1:]
+			}
+		}
+	}
+	return ""
 }
 
 // ghostKeyType extracts K from "map[K]V" / "set[K]".
@@ -677,6 +766,12 @@ func (env *Env) evalIndex(x *EIndex) SV {
 	vc := env.vc
 	base := env.eval(x.X)
 	idx := env.eval(x.I)
+	if gm, ok := base.T.(*ghostMapT); ok {
+		if base.V.Fn != nil {
+			return SV{V: base.V.Fn(idx.V), T: gm.val}
+		}
+		return SV{V: Select(base.V, idx.V, base.V.Sort.Elem), T: gm.val}
+	}
 	if base.V.Fn != nil {
 		return SV{V: base.V.Fn(idx.V)}
 	}
@@ -721,6 +816,7 @@ func (env *Env) evalCall(x *ECall) SV {
 		}
 		e := *env
 		e.st = env.old
+		e.inOld = true
 		return e.eval(x.Args[0])
 	case "len":
 		v := arg(0)
